@@ -366,3 +366,9 @@ package sender
 //@   modifies ghost.rpos
 //@   ensures[C14] [one-filter-list-consumed] err == nil ==> select(ghost.rpos, data(c.Reader)) == filterListEnd(data(c.Reader), old(select(ghost.rpos, data(c.Reader))))
 //@   loop[C14] 0: invariant [list-end-unchanged] filterListEnd(data(c.Reader), select(ghost.rpos, data(c.Reader))) == filterListEnd(data(c.Reader), old(select(ghost.rpos, data(c.Reader))))
+// stepping stones for the entry assertions: the accumulated tokens behind each optional field
+//@ func (*sender.scopedWalker).walkFn
+//@   at[C15,C14] (*rsyncopts.Options).PreserveGid: assert [tokens-after-uid] select(ghost.bufacc, addr(s.fec.buf)) == entryIds(entryFixed(flags, name, size, wrap32s(infoMSec(data(info))), mode), s.st.Opts.preserve_uid != 0, infoUid(data(info)), false, 0)
+//@   at[C15,C14] (*rsyncopts.Options).PreserveDevices: assert [tokens-after-gid] select(ghost.bufacc, addr(s.fec.buf)) == entryIds(entryFixed(flags, name, size, wrap32s(infoMSec(data(info))), mode), s.st.Opts.preserve_uid != 0, infoUid(data(info)), s.st.Opts.preserve_gid != 0, infoGid(data(info)))
+//@   at[C15,C14] (*rsyncopts.Options).PreserveLinks: assert [tokens-after-rdev] select(ghost.bufacc, addr(s.fec.buf)) == entryRdev(entryIds(entryFixed(flags, name, size, wrap32s(infoMSec(data(info))), mode), s.st.Opts.preserve_uid != 0, infoUid(data(info)), s.st.Opts.preserve_gid != 0, infoGid(data(info))), s.st.Opts.preserve_devices != 0, s.st.Opts.preserve_specials != 0, mode, infoRdev(data(info)))
+//@   at[C15,C14] (*rsyncopts.Options).AlwaysChecksum: assert [tokens-after-link] select(ghost.bufacc, addr(s.fec.buf)) == entryUpToLink(s, flags, name, size, data(info), mode, path)
